@@ -101,6 +101,7 @@ CHECKS["C01"] = {
                   "the routing table library (go-libp2p-kbucket) is trusted for the seed selection that is observed, not predicted.",
     "parts": [
         {"part": "adversarial", "pkg": ROOT, "test": "TestVerif_C01_Adversarial", "quick": 2000, "thorough": 40000},
+        {"part": "cancelled", "pkg": ROOT, "test": "TestVerif_C01_Cancelled", "quick": 1500, "thorough": 30000},
     ],
 }
 CHECKS["C02"] = {
